@@ -64,6 +64,8 @@ def run(ctx):
     ctx.rule("R14-10", "the words of a `for` list: an unquoted token contributes its whitespace-separated words (none, when an "
                        "expansion produced nothing), a quoted token contributes itself - in get_for_result_from_init a whole "
                        "token is pushed only under a non-empty quote tag")
+    ctx.rule("R14-11", "a condition is decided by the status of the LAST command of its list: in run_exp_test_br the pass flag is "
+                       "set under `<results of the head line>.last().status == 0` (not first(), not an index, not any / all)")
     ctx.rule("R14-4", "run_exp_if leaves at the first passed branch; a body runs only under test_pass; `while` calls its "
                       "head test on every iteration; `for` calls set_env(var, value) before each body run, iterating forward")
     gpath = os.path.join(ctx.root, "src", "parsers", "grammar.pest")
@@ -81,6 +83,7 @@ def run(ctx):
         flags_used_rule(ctx, crate)
         for_binding_rule(ctx, crate)
         for_words_rule(ctx, crate)
+        condition_status_rule(ctx, crate)
 
 
 def anchor_rule(ctx, crate, g):
@@ -505,3 +508,39 @@ def for_words_rule(ctx, crate):
            key="R14-10|%s|whole-token-untagged" % b.path, where=b.loc((whole or pushes)[0]), crate=crate.kind,
            detail=None if ok else "an unquoted expansion that produced nothing (`for x in $EMPTY`, `$(true)`, `$@` without "
            "arguments) becomes the word \"\": the body runs once with an empty variable")
+
+
+def condition_status_rule(ctx, crate):
+    from .c02 import dom_facts
+    b = crate.fn("scripting::run_exp_test_br")
+    if not ctx.require(b is not None, "R14-11", "R14-11|anchor", "scripting::run_exp_test_br not found"):
+        return
+    runs = [bb for bb, t, c in b.calls() if last_seg(c) == "run_command_line"]
+    if not ctx.require(len(runs) == 1, "R14-11", "R14-11|%s|run" % b.path, "expected one run_command_line in run_exp_test_br", b.path):
+        return
+    res = strip_sites(b.call_expr(runs[0]))
+    # assignments `flag = true` after the head line ran, with their dominating facts
+    sets = []
+    for bi, si, st in b.stmts():
+        if st["k"] == "assign" and not st["place"]["p"] and b.locals[st["place"]["l"]]["ty"] == "bool":
+            e = b.expand_vars(strip_sites(b.rvalue_expr(st["rv"])))
+            if b.dominates(runs[0], bi) and bi != runs[0]:
+                sets.append((bi, e))
+    good, bad = [], []
+    for bi, e in sets:
+        srcs = []       # how the compared status is picked from the result list
+        exprs = [e] + [b.expand_vars(strip_sites(a)) for a, v in dom_facts(b, bi)]
+        for x in exprs:
+            for sub in mir.subexprs(x):
+                if sub[0] == "call" and last_seg(sub[1]) in ("last", "first", "get", "index", "iter", "any", "all", "nth", "pop"):
+                    if any(y == res for y in mir.subexprs(b.expand_vars(strip_sites(sub)))) or \
+                            flow.backward(b, sub, lambda z: strip_sites(z) == res, through_containers=False) is not None:
+                        srcs.append(last_seg(sub[1]))
+        if not srcs:
+            continue
+        (good if set(srcs) <= {"last"} else bad).append((bi, sorted(set(srcs))))
+    ok = bool(good) and not bad
+    ctx.ob("R14-11", b.path, "the condition's verdict is taken from results.last().status", ok,
+           key="R14-11|%s|condition-status" % b.path, where=b.loc((bad or good or [(runs[0], [])])[0][0]), crate=crate.kind,
+           detail=None if ok else "the verdict is taken via %s: for `if a && b` / `while a || b` the wrong command decides" %
+           ((bad[0][1] if bad else "no recognisable selection")))
